@@ -11,7 +11,11 @@ use sml_rs::transport::DecodeErr;
 fn assumptions() -> Vec<String> {
     vec![
         "byte classes {00,01,02,1a,1b,other} + state-adaptive checksum bytes are a complete alphabet for the transport decoder's control flow (DESIGN §4; VERIF_ALPHA=alt permutes the representatives)".into(),
-        "verif_snapshot copies every field of the decoder (exact-state merging); monitor = DESIGN §5".into(),
+        if crate::dec::HOOKS_BUILT {
+            "verif_snapshot copies every field of the decoder (exact-state merging, checked by the hook-fidelity test; otherwise stateless); monitor = DESIGN §5".into()
+        } else {
+            "built without the verif-hooks feature: stateless exploration, decoders duplicated by replay, no merging; monitor = DESIGN §5".into()
+        },
         "bounded depth in symbols (macro symbols are up to 4 bytes, whole-frame symbols 16-20 bytes)".into(),
         "64-bit host, features std+alloc+nb, overflow checks and debug assertions on".into(),
     ]
@@ -82,6 +86,12 @@ fn hooks_incomplete(ctx: &Ctx, why: &str) -> u64 {
 /// original, the duplicate and the rebuilt decoder must answer four continuations identically.
 /// A field of the decoder that the hooks do not carry shows up here as a machinery exit instead of
 /// silently making E1's state merging unsound.
+#[cfg(not(feature = "hooks"))]
+pub fn hook_fidelity(ctx: &Ctx) -> u64 {
+    ctx.log("WARNING: built WITHOUT the repository's verif-hooks feature (it did not compile against this tree). STATELESS exploration: decoders are duplicated by replaying their history, states are never merged, depth bounds are reduced");
+    0
+}
+#[cfg(feature = "hooks")]
 pub fn hook_fidelity(ctx: &Ctx) -> u64 {
     use sml_rs::transport::Decoder;
     if !crate::dec::hooks_complete() {
@@ -107,7 +117,7 @@ pub fn hook_fidelity(ctx: &Ctx) -> u64 {
             for p in next.iter().step_by(3) {
                 let (node, _) = rebuild(BufKind::Vec, p);
                 let snap = node.dec.snap();
-                let restored: Box<dyn Dec> = match Decoder::<Vec<u8>>::verif_restore(&snap) {
+                let restored: Box<dyn Dec> = match Decoder::<Vec<u8>>::verif_restore(&snap.to_hook()) {
                     Some(d) => Box::new(d),
                     None => return hooks_incomplete(ctx, &format!("verif_restore fails on the state after [{}]", path_str(p))),
                 };
@@ -220,6 +230,7 @@ impl Acc {
             .set("outcomes", self.counts.to_json())
             .set("findings_of_other_properties_seen", self.other.to_json())
             .set("runs", J::Arr(self.runs.clone()))
+            .set("hooks_built", crate::dec::HOOKS_BUILT)
             .set("hooks_complete", crate::dec::hooks_complete())
             .set("exhaustive", self.exhaustive)
     }
@@ -963,7 +974,7 @@ fn apply_pair(p: &mut Pair, s: Sym, adapt_lhs: bool, gens: &mut Vec<u8>) -> Opti
                 let b = match g {
                     G::F(b) => b,
                     g => {
-                        let w = wanted_pub(&if adapt_lhs { p.l.snap() } else { p.r.snap() });
+                        let w = if adapt_lhs { p.l.wanted() } else { p.r.wanted() };
                         match g {
                             G::Lo => w as u8,
                             G::Hi => (w >> 8) as u8,
@@ -1000,7 +1011,7 @@ fn c14_dfs(
         cont.push(s);
         if let Some(d) = apply_pair(&mut q, s, adapt_lhs, &mut bytes) {
             found.push((cont.clone(), d));
-        } else if q.l.snap() == q.r.snap() {
+        } else if crate::dec::hooks_complete() && q.l.snap() == q.r.snap() {
             // identical in every field: all futures identical, nothing left to explore
             stats.1 += 1;
         } else {
@@ -1105,7 +1116,10 @@ pub fn run_c14(tier: Tier) -> ! {
     acc.counts.addn("lock-step continuation steps (boundary state vs new decoder)", total_pairs);
     acc.counts.addn("continuations closed by full state equality (all futures identical)", closed);
     acc.counts.addn("continuations still distinct in state at the depth bound (outputs identical so far)", open_at_bound);
-    acc.counts.require(&["distinct boundary states", "frames delivered", "frames rejected", "continuations closed by full state equality (all futures identical)"]);
+    acc.counts.require(&["distinct boundary states", "frames delivered", "frames rejected"]);
+    if crate::dec::hooks_complete() {
+        acc.counts.require(&["continuations closed by full state equality (all futures identical)"]);
+    }
     acc.samples.push(J::obj().set("differential", "boundary path [ESC SOM ESC TAIL0] then continuation [PADLIE1 FRAME1] on the boundary state and on Decoder::new(), outputs compared call by call"));
     let cov = acc.coverage(golden, RULE);
     finish_e1(&ctx, cov, assumptions(), acc.tally)
